@@ -278,8 +278,10 @@ class BV:
                     st.append(b)
         return block not in seen
 
-    def bool_edges(self, pred):
-        """[(switch block, target, truth)] for boolean switches whose condition term satisfies pred."""
+    def bool_edges(self, pred, whole=False):
+        """[(switch block, target, truth)] for boolean switches whose condition term satisfies pred.
+        A merged condition (phi) matches only if every source satisfies pred, unless whole=True (the
+        predicate is about the merged value itself, e.g. a mutable flag)."""
         out = []
         for bi in sorted(self.reach0):
             t = self.blocks[bi]["t"]
@@ -292,7 +294,11 @@ class BV:
             while term[0] == "unop" and term[1] == "Not":
                 term = term[2]
                 flip = not flip
-            if not pred(term):
+            if term[0] == "phi" and not whole:
+                # merged condition: every source has to satisfy the predicate
+                if not all(pred(_unflip(a)) for a in term[1]):
+                    continue
+            elif not pred(term):
                 continue
             for b in self.succ[bi]:
                 for v in self.edge_label.get((bi, b), []):
@@ -572,3 +578,9 @@ PASS_THROUGH = {
     "std::boxed::Box::<T>::new",
     "std::boxed::Box::<T>::pin",
 }
+
+
+def _unflip(t):
+    while t[0] == "unop" and t[1] == "Not":
+        t = t[2]
+    return t
